@@ -128,6 +128,19 @@ CHECKS = {
     note="Faults are injected as ArithmeticError raised by the KKT factor/solve routines (the documented failure signal). Consistency of the "
          "'unknown' result is judged by harness/alpha.py (exact rational recomputation).",
     technique="TLA+ contract + faithful control models checked by TLC; exhaustive fault-position injection into the real solvers; TLC trace validation"),
+ "C15": dict(
+    category="model_checking",
+    text="DenseMatrix.tla is an executable reference model written from matrices.rst: a heap of matrix objects and an environment of names; "
+         "constructors, one/two-argument indexing and indexed assignment (ints, negative ints, slices via Python's slice.indices, lists, "
+         "integer matrices), + - * with type promotion and the number / 1x1 rules, in-place operators (allowed exactly when type and size are "
+         "preserved), transposes, real/imag, size reassignment, len/sum, aliasing. TLC explores a box of operations for the design invariants "
+         "(well-formedness, typecode stability, errors change nothing, regular results are fresh objects). Seeded random programs run on real "
+         "cvxopt.matrix objects and TLC validates every step of every trace: result, every named object (typecode, size, all entries) and "
+         "which names share an object.",
+    design_ref="DESIGN.md section 4 C15",
+    note="Integer-valued data (arithmetic exact). Not modelled yet: division, remainder, power, elementwise functions, buffer constructors "
+         "(see C20), integers beyond 32 bits. Three clauses are marked CALIBRATED in the spec (empty left-hand sides, empty conversions).",
+    technique="TLA+ executable reference model; TLC box exploration + TLC trace validation of random programs run on the real objects"),
 }
 
 NOT_YET = "check not built yet in this round (design in DESIGN.md section 4); not claimed"
